@@ -10,7 +10,12 @@ from harness import util
 ID = 'C01'
 MODULE = 'EmsModel.Props.C01'
 DRIVER = 'C01'
+# theorems about the terms harness/trans_indexsrc.py generates from the source of the index functions
+EXTRA_MODULES = ['EmsModel.Props.C01Src']
 REQUIRED = [
+    'Ems.C01.ravel_index_generated', 'Ems.C01.wind_index_generated', 'Ems.C01.grid_size_generated',
+    'Ems.C01.index_functions_translated', 'Ems.C01.ravel_wind_generated', 'Ems.C01.wind_rejects_generated',
+    'Ems.C01.ravel_rejects_generated',
     'Ems.C01.ravel_wind', 'Ems.C01.wind_ravel', 'Ems.C01.wind_rejects', 'Ems.C01.ravel_rejects',
     'Ems.C01.unknown_kind_rejected', 'Ems.C01.default_kind', 'Ems.C01.wind_inRange',
     'Ems.C01.wind_injective', 'Ems.C01.wind_surjective', 'Ems.C01.ravel_rowmajor_2d',
